@@ -199,6 +199,11 @@ static void log_obs(const char *what)
  * appt=3: before a request the application arms a timer that is due on exactly the tick of the transfer's timeout and keeps it across transfers until it elapses:
  *         the timeout is the last action of a shared timer event, a back-to-back transfer with the same timeout joins the same event again */
 static int APPT_MODE;
+/* --opt tpdo=1: the node also runs an event-driven TPDO (181h, event time 2 ms).  Before every request the node goes OPERATIONAL -> PRE-OPERATIONAL and three
+ * ticks pass (the TPDO's event timer elapses where nothing is sent), right after the request an NMT start re-initialises the PDOs: another service's timer
+ * bookkeeping next to the client's timeout.  TPDO frames are not the client's business and are skipped by the observer. */
+static int TPDO_MODE;
+static int tpdo_live(void) { return TPDO_MODE && Node.TPdo[0].EvTmr >= 0; }
 static void appt_cb(void *p) { (void)p; }
 static void appt_drop(void) { if (H.appt >= 0) { (void)COTmrDelete(&Node.Tmr, (int16_t)H.appt); H.appt = -1; } }
 static void do_tick(void)
@@ -229,6 +234,7 @@ static void observe(React *r)
     }
     for (int i = 0; i < OBS.ntx && i < W_MAX_TX; i++) {
         const WFrame *f = &OBS.tx[i];
+        if (TPDO_MODE && f->id == 0x181) continue;
         if (f->id != TXID || f->dlc != 8) FAIL("csdo-request-frames", "unexpected frame %03X dlc %d on the bus", f->id, f->dlc);
         else if (H.chained && H.chain_err == (int)CO_ERR_NONE && f->d[0] != 0x80 && f->d[1] == (uint8_t)CH_IDX && f->d[2] == (uint8_t)(CH_IDX >> 8) && f->d[3] == CH_SUB) H.chain_seen++;
         else if (f->d[0] == 0x80) {
@@ -368,7 +374,7 @@ static void finish(uint32_t code)
     check_guards(s);
     if (!FAILED && code == 0 && H.t.dir == UP) check_content(s, H.os, "");
     if (!FAILED && !noleak) {
-        int a = tmr_used_act() - (H.appt >= 0), t = tmr_used_tim() - (H.appt >= 0);
+        int a = tmr_used_act() - (H.appt >= 0) - tpdo_live(), t = tmr_used_tim() - (H.appt >= 0) - tpdo_live();
         if (a != H.act0 || t != H.tim0) FAIL("csdo-timer-leak", "after the %s transfer completed with code %08X %d timer action(s) / %d timer event(s) are in use, %d / %d before the request", H.t.dir == UP ? "upload" : "download", code, a, t, H.act0, H.tim0);
     }
 }
@@ -463,7 +469,8 @@ static void tr_request(void)
     CO_CSDO *c = COCSdoFind(&Node, C19_CLIENT);
     if (c == 0) { FAIL("csdo-request-refused", "COCSdoFind returns NULL for the enabled client 0 before transfer %d", H.seq); return; }
     if (APPT_MODE != 3) appt_drop();
-    H.act0 = tmr_used_act() - (H.appt >= 0); H.tim0 = tmr_used_tim() - (H.appt >= 0);
+    if (TPDO_MODE) { nc_nmt(1, 0); nc_nmt(128, 0); for (int k = 0; k < 3; k++) w_tick(&Node, 1); w_obs_clear(); }
+    H.act0 = tmr_used_act() - (H.appt >= 0) - tpdo_live(); H.tim0 = tmr_used_tim() - (H.appt >= 0) - tpdo_live();
     if (APPT_MODE == 3 && H.appt < 0 && H.t.to > 0) { H.appt = COTmrCreate(&Node.Tmr, (uint32_t)H.t.to * MSPT, 0, appt_cb, 0); H.appt_age = (int)((uint32_t)H.t.to * MSPT); }
     w_obs_clear();
     if (H.t.dir == UP) err = COCSdoRequestUpload(c, CO_DEV(H.idx, H.sub), UB[H.seq] + GUARD, (uint32_t)H.t.size, csdo_cb, (uint32_t)H.t.to * MSPT);
@@ -479,6 +486,7 @@ static void tr_request(void)
     if (FAILED) return;
     if (H.t.dir == DOWN && H.t.size <= 4) H.off = (uint32_t)H.t.size;
     H.active = 1; H.remaining = H.t.to;
+    if (TPDO_MODE) { nc_nmt(1, 0); w_obs_clear(); }
     if (APPT_MODE && APPT_MODE != 3 && H.appt < 0 && H.t.to > 3) { H.appt = COTmrCreate(&Node.Tmr, APPT_MODE == 2 ? 1 : 3, 0, appt_cb, 0); H.appt_age = 0; }
     if (H.stale) {
         /* the late answer of the previous transfer arrives now; the real answer follows */
@@ -608,6 +616,7 @@ static void leaf(void)
         if (!FAILED && H.done[i] != 1) FAIL("csdo-callback-count", "transfer %d of the sequence got %d completion callbacks", i, H.done[i]);
     }
     appt_drop();
+    if (TPDO_MODE) { nc_nmt(128, 0); for (int k = 0; k < 3; k++) w_tick(&Node, 1); w_obs_clear(); }
     if (!FAILED) { int a = tmr_used_act(), t = tmr_used_tim(); if (a != H.act_init || t != H.tim_init) FAIL("csdo-timer-leak", "at the end of the sequence %d timer action(s) / %d event(s) are in use, %d / %d initially", a, t, H.act_init, H.tim_init); }
     if (mc_verbose) { char b[400]; cid_text(b, sizeof b); mc_log("  sequence: %s\n", b); }
     case_close();
@@ -756,6 +765,8 @@ static void setup(void)
     w_regions_clear();
     MSPT = mc_opt("slow", 0) ? 10 : 1;
     nc_defaults(); NC.csdo = C19_CLIENT ? 2 : 1; NC.freq = 1000 / MSPT;
+    TPDO_MODE = mc_opt("tpdo", 0);
+    if (TPDO_MODE) { NC.n_tpdo = 1; NC.tpdo[0].present = 1; NC.tpdo[0].cobid = 0x40000181u; NC.tpdo[0].type = 254; NC.tpdo[0].event = (uint16_t)(2 * MSPT); NC.tpdo[0].nmap = 1; NC.tpdo[0].map[0] = NC_MAP(0x2100, 0, 8); }
     if (mc_opt("pool", 0) > 0) NC.tmr_n = mc_opt("pool", 0);      /* --opt pool=1: a timer pool sized exactly for the one timeout the client needs */
     nc_build();
 #if C19_CLIENT
